@@ -302,4 +302,19 @@ theorem c10_warm_tree (s : Src) (σ : Store) (hn : s.ids.Nodup) (hc : Cold σ s.
   intro first second
   exact ⟨Src.second_stream_NA s σ hn hc hk h, by rw [Src.stream_text s true _ hw, Src.stream_text s true σ hw]⟩
 
+
+/-- non-vacuity: `ConcatSource[CachedSource(OriginalSource("a;b", "f")), RawSource("x")]` meets the hypotheses of `c10_warm_tree` -/
+theorem c10_warm_example_ms : chunkMs ((Src.orig [97, 59, 98] [102]).stream { columns := true, final := false } []).fst.evs
+    = [⟨1, 0, some ⟨0, 1, 0, none⟩⟩, ⟨1, 2, some ⟨0, 1, 2, none⟩⟩] := by decide
+example : (Src.concat (.cons (.cached 0 (.orig [97, 59, 98] [102])) (.cons (.rawStr [120]) .nil))).WarmHyp
+    ∧ (Src.concat (.cons (.cached 0 (.orig [97, 59, 98] [102])) (.cons (.rawStr [120]) .nil))).CachedOK := by
+  simp only [Src.WarmHyp, SrcList.WarmHyps, Src.strip, Src.WF, Src.PosHyp, Src.IdxHyp, Src.src, Src.CachedOK, SrcList.CachedOKs]
+  refine ⟨⟨⟨trivial, trivial, trivial, by decide, by decide, ?_⟩, trivial, trivial⟩, trivial, trivial, trivial⟩
+  rw [c10_warm_example_ms]
+  intro m hm
+  simp only [List.mem_cons, List.mem_nil_iff, or_false] at hm
+  rcases hm with rfl | rfl
+  · exact ⟨by decide, fun o ho => by cases ho; exact ⟨by decide, by decide, by decide, fun k hk => by cases hk⟩⟩
+  · exact ⟨by decide, fun o ho => by cases ho; exact ⟨by decide, by decide, by decide, fun k hk => by cases hk⟩⟩
+
 end Rs
